@@ -83,7 +83,7 @@ double gcirc(double ra1, double dec1,
 {
 
     double sindec1, cosdec1, sindec2, cosdec2, 
-           radiff, cosradiff, dis, cosdis; 
+           radiff, cosradiff, sinradiff, dis, cosdis, t1, t2, sindis; 
 
     if (ra1 == ra2 && dec1 == dec2) {
         return 0.0;
@@ -98,12 +98,17 @@ double gcirc(double ra1, double dec1,
     radiff = (ra1-ra2)*D2R;
     cosradiff = cos(radiff);
 
+    sinradiff = sin(radiff);
+
     cosdis = sindec1*sindec2 + cosdec1*cosdec2*cosradiff;
 
-    if (cosdis < -1.0) cosdis=-1.0;
-    if (cosdis >  1.0) cosdis= 1.0;
+    // acos(cosdis) cannot resolve separations below ~1e-6 degrees (nor
+    // above 180 minus that); use the sine from the cross product as well
+    t1 = cosdec2*sinradiff;
+    t2 = cosdec1*sindec2 - sindec1*cosdec2*cosradiff;
+    sindis = sqrt(t1*t1 + t2*t2);
 
-    dis = acos(cosdis);
+    dis = atan2(sindis, cosdis);
     if (degrees) {
         dis *= R2D;
     }
